@@ -2,6 +2,7 @@ package mc
 
 import (
 	"fmt"
+	"strings"
 
 	pb "go.etcd.io/raft/v3/raftpb"
 )
@@ -521,7 +522,7 @@ func poolElection(tier string) (p pool) {
 	for _, f := range []feat{syncF, asyncF, pvF} {
 		p.bfs = append(p.bfs, bfsDueling(f, 3, 2, 3), bfsDueling(f, 3, 2, 3, int(BDup), 1), bfsDueling(f, 3, 2, 3, int(BCrash), 1))
 	}
-	p.bfs = append(p.bfs, bfsCandidateCrash(asyncF), bfsCandidateCrash(syncF))
+	p.bfs = append(p.bfs, bfsCandidateCrash(asyncF), bfsCandidateCrash(syncF)) // weight raised in Jobs()
 	return
 }
 
@@ -831,6 +832,9 @@ func Jobs(prop, tier string) []*Job {
 	}
 	for i, j := range jobs {
 		j.Index = i
+		if strings.Contains(j.Name, "candidate-crash") || strings.Contains(j.Name, "pagination") {
+			j.Weight = 5
+		}
 	}
 	return jobs
 }
